@@ -7,6 +7,7 @@ package main
 import (
 	"fmt"
 	"go/token"
+	"regexp"
 	"strings"
 
 	"golang.org/x/tools/go/ssa"
@@ -17,6 +18,8 @@ func init() {
 }
 
 const stackPkg = modPath + "/stack"
+
+var reSnapshotOfS = regexp.MustCompile(`^s(@\d+)?\.Snapshot(@\d+)?$`)
 
 type flAgg struct {
 	obls *[]Obl
@@ -323,7 +326,7 @@ func flScanSnapshot(c *Ctx, a *flAgg) {
 		switch {
 		case !have:
 			a.und("FL-snapshot", "ScanSnapshot/return", "no test of s.Goroutines before returning", pos)
-		case gnil && r0.isNilConst(), !gnil && (strings.HasSuffix(r0.String(), "s.Snapshot") || strings.Contains(r0.String(), "s.Snapshot@")):
+		case gnil && r0.isNilConst(), !gnil && reSnapshotOfS.MatchString(r0.String()):
 			a.ok("FL-snapshot", "ScanSnapshot/return", "a snapshot is returned iff a goroutine was seen", pos)
 		default:
 			a.bad("FL-snapshot", "ScanSnapshot/return", fmt.Sprintf("snapshot result %s with s.Goroutines==nil %v", r0.String(), gnil), pos)
